@@ -78,18 +78,74 @@ theorem countLoopIf_getD (c : DEdge → Bool) (key : DEdge → Nat) (n : Nat) (e
 
 theorem bounded_eq_filter (m : Nat) (es : List DEdge) : bounded m es = es.filter (inBound m) := rfl
 
-theorem edgeSetLoop_eq (es : List DEdge) (m : Nat) : edgeSetLoop es m = bounded m es := by
+theorem foldl_dictAdd_nodup {α : Type} [BEq α] [LawfulBEq α] (es : List α) (init : List α) (hn : es.Nodup)
+    (hd : ∀ e ∈ es, e ∉ init) : es.foldl dictAdd init = init ++ es := by
+  induction es generalizing init with
+  | nil => simp
+  | cons e t ih =>
+    have hne : e ∉ init := hd e List.mem_cons_self
+    have hn' := List.nodup_cons.mp hn
+    rw [List.foldl_cons]
+    have h1 : dictAdd init e = init ++ [e] := by
+      unfold dictAdd
+      have : init.contains e = false := by simpa using hne
+      rw [this]; rfl
+    rw [h1, ih (init ++ [e]) hn'.2]
+    · simp
+    · intro x hx hmem
+      rcases List.mem_append.mp hmem with h | h
+      · exact hd x (List.mem_cons_of_mem _ hx) h
+      · have : x = e := by simpa using h
+        subst this; exact hn'.1 hx
+
+/-- on the duplicate-free listing `get_edges()` the dict `edge_set` has exactly the bounded set as its keys, in order -/
+theorem edgeSetLoop_eq (es : List DEdge) (m : Nat) (hn : es.Nodup) : edgeSetLoop es m = bounded m es := by
   unfold edgeSetLoop
-  rw [foldl_append_if (inBound m) (fun e => [e]) es [], bounded_eq_filter]
-  simp [List.flatMap_singleton']
+  rw [foldl_if (inBound m) dictAdd es [], bounded_eq_filter,
+    foldl_dictAdd_nodup _ [] ((List.filter_sublist).nodup hn) (fun _ _ h => by cases h)]
+  rfl
+
+theorem mem_foldl_dictAdd {α : Type} [BEq α] [LawfulBEq α] (ps : List α) (acc : List α) (p : α) :
+    p ∈ ps.foldl dictAdd acc ↔ p ∈ acc ∨ p ∈ ps := by
+  induction ps generalizing acc with
+  | nil => simp
+  | cons q ps ih =>
+    rw [List.foldl_cons, ih]
+    have : p ∈ dictAdd acc q ↔ p ∈ acc ∨ p = q := by
+      unfold dictAdd
+      by_cases hc : acc.contains q = true
+      · rw [if_pos hc]
+        have hq : q ∈ acc := by simpa using hc
+        constructor
+        · exact Or.inl
+        · rintro (h | rfl)
+          · exact h
+          · exact hq
+      · rw [if_neg hc]; simp
+    rw [this, List.mem_cons, or_assoc]
+
+/-- in general `edge_set` has the same members as the bounded set (duplicates in the listing are stored once) -/
+theorem mem_edgeSetLoop (es : List DEdge) (m : Nat) (e : DEdge) : e ∈ edgeSetLoop es m ↔ e ∈ bounded m es := by
+  unfold edgeSetLoop
+  rw [foldl_if (inBound m) dictAdd es [], bounded_eq_filter, mem_foldl_dictAdd]
+  simp
+
+theorem mem_foldl_binStep (es : List DEdge) (acc : List (Nat × Nat)) (p : Nat × Nat) :
+    p ∈ es.foldl binStep acc ↔ p ∈ acc ∨ ∃ f ∈ es, p ∈ pairsOf f := by
+  induction es generalizing acc with
+  | nil => simp
+  | cons e es ih =>
+    rw [List.foldl_cons, ih]
+    unfold binStep
+    rw [mem_foldl_dictAdd]
+    simp only [List.mem_cons, exists_eq_or_imp, or_assoc]
 
 theorem mem_binLoop (es : List DEdge) (m : Nat) (p : Nat × Nat) :
     p ∈ binLoop es m ↔ ∃ f ∈ bounded m es, p.1 ∈ f.1 ∧ p.2 ∈ f.2 := by
   unfold binLoop
-  rw [foldl_append_if (inBound m) (fun e => e.1.flatMap (fun i => e.2.map (fun j => (i, j)))) es [],
-    bounded_eq_filter]
+  rw [foldl_if (inBound m) binStep es [], mem_foldl_binStep, bounded_eq_filter]
   obtain ⟨a, b⟩ := p
-  simp only [List.nil_append, List.mem_flatMap, List.mem_map, Prod.mk.injEq]
+  simp only [List.not_mem_nil, false_or, pairsOf, List.mem_flatMap, List.mem_map, Prod.mk.injEq]
   constructor
   · rintro ⟨f, hf, i, hi, j, hj, rfl, rfl⟩; exact ⟨f, hf, hi, hj⟩
   · rintro ⟨f, hf, hi, hj⟩; exact ⟨f, hf, a, hi, b, hj, rfl, rfl⟩
@@ -166,7 +222,8 @@ theorem mem_coveredLoop (tbl : List (Nat × List Nat)) (T : List Nat) (s : Nat) 
 
 theorem exactTest_eq (es : List DEdge) (m : Nat) (e : DEdge) :
     exactTest (edgeSetLoop es m) e = isExact (bounded m es) e := by
-  rw [edgeSetLoop_eq]; rfl
+  rw [Bool.eq_iff_iff]
+  simp only [exactTest, isExact, List.contains_iff_mem, mem_edgeSetLoop]
 
 theorem strongTest_eq (es : List DEdge) (m : Nat) (e : DEdge) :
     strongTest (reachLoop es m) e = isStrong (bounded m es) e := by
@@ -193,7 +250,7 @@ theorem filter_congr_mem {α : Type} (p q : α → Bool) (l : List α) (h : ∀ 
 
 /-- the loops of a reciprocity routine (tot, edge_set, rec, division) give the table of the closed forms -/
 theorem loop_table (test : DEdge → Bool) (p : List DEdge → DEdge → Bool) (es : List DEdge) (m : Nat)
-    (h : ∀ e, test e = p (bounded m es) e) :
+    (hn : es.Nodup) (h : ∀ e, test e = p (bounded m es) e) :
     ratioLoop (recLoop test (edgeSetLoop es m) m) (totLoop es m) m = reciprocityTable p es m := by
   unfold ratioLoop reciprocityTable
   apply List.map_congr_left
@@ -203,7 +260,7 @@ theorem loop_table (test : DEdge → Bool) (p : List DEdge → DEdge → Bool) (
     exact List.mem_range.mp this
   have e1 : (recLoop test (edgeSetLoop es m) m).getD k 0 = recCount p (bounded m es) k := by
     unfold recLoop recCount ofSize
-    rw [countLoopIf_getD _ _ _ _ _ hk', edgeSetLoop_eq, List.filter_filter, List.filter_filter]
+    rw [countLoopIf_getD _ _ _ _ _ hk', edgeSetLoop_eq es m hn, List.filter_filter, List.filter_filter]
     congr 1
     apply List.filter_congr
     intro e _
@@ -678,5 +735,114 @@ theorem sigTargetWeighted_eq (es : List DEdge) (m : Nat) (hne : ∀ e ∈ es, e.
   show cellIndex m e % (m - 1) + 1 = e.2.length
   unfold cellIndex
   rw [hu.2]; omega
+
+/-! ## the first loop is ONE pass filling all tables -/
+
+theorem firstLoop_fold (m : Nat) (es : List DEdge) (st : FirstLoop) :
+    es.foldl (firstStep m) st =
+      { tot := es.foldl (fun t e => if inBound m e then bump t (esize e) else t) st.tot,
+        edgeSet := es.foldl (fun acc e => if inBound m e then dictAdd acc e else acc) st.edgeSet,
+        reach := es.foldl (fun t e => if inBound m e then reachStep t e else t) st.reach,
+        bins := es.foldl (fun acc e => if inBound m e then binStep acc e else acc) st.bins } := by
+  induction es generalizing st with
+  | nil => rfl
+  | cons e es ih =>
+    rw [List.foldl_cons, ih]
+    by_cases h : inBound m e = true
+    · simp [firstStep, h]
+    · simp [firstStep, h]
+
+theorem firstLoop_eq (es : List DEdge) (m : Nat) :
+    firstLoop es m = { tot := totLoop es m, edgeSet := edgeSetLoop es m, reach := reachLoop es m,
+                       bins := binLoop es m } := by
+  unfold firstLoop
+  rw [firstLoop_fold]
+  rfl
+
+/-! ## every cell of the signature -/
+
+theorem signature_cell_all (es : List DEdge) (m a b : Nat) (ha : a < m - 1) (hb : b < m - 1)
+    (hne : ∀ e ∈ es, e.1 ≠ [] ∧ e.2 ≠ []) :
+    (signature es m)[a * (m - 1) + b]? =
+      some ((es.filter (fun e => esize e ≤ m)).filter
+        (fun e => e.1.length - 1 == a && e.2.length - 1 == b)).length := by
+  have hinv := sigFold_inv (m - 1) (es.filter (fun e => esize e ≤ m)) _ (uniform_zeros (m - 1))
+  have hu' : Uniform (m - 1) (signatureMatrix es m) := hinv.1
+  rw [← signatureLoop_eq es m hne]
+  unfold signatureLoop
+  rw [flatten_getElem? (m - 1) _ hu' a b hb]
+  unfold signatureMatrix
+  rw [at2_sigFold, at2_zeros _ _ _ ha hb]
+  simp
+
+/-! ## exactly reciprocated hyperedges come in pairs -/
+
+theorem even_of_involution {α : Type} [DecidableEq α] (sw : α → α) (hsw : ∀ x, sw (sw x) = x) :
+    ∀ (n : Nat) (l : List α), l.length ≤ n → l.Nodup → (∀ x ∈ l, sw x ∈ l) → (∀ x ∈ l, sw x ≠ x) →
+      l.length % 2 = 0 := by
+  intro n
+  induction n with
+  | zero =>
+    intro l hl _ _ _
+    have : l.length = 0 := by omega
+    rw [this]
+  | succ n ih =>
+    intro l hl hn hc hf
+    cases l with
+    | nil => rfl
+    | cons e t =>
+      have hn' := List.nodup_cons.mp hn
+      have hse : sw e ∈ t := by
+        have := hc e List.mem_cons_self
+        rcases List.mem_cons.mp this with h | h
+        · exact absurd h (hf e List.mem_cons_self)
+        · exact h
+      have hlen : (t.erase (sw e)).length = t.length - 1 := List.length_erase_of_mem hse
+      have htpos : 0 < t.length := List.length_pos_of_mem hse
+      have hnd : (t.erase (sw e)).Nodup := hn'.2.erase _
+      have key := ih (t.erase (sw e)) (by rw [hlen]; simp at hl; omega) hnd ?_ ?_
+      · simp only [List.length_cons]; rw [hlen] at key; omega
+      · intro x hx
+        have hx' := (List.Nodup.mem_erase_iff hn'.2).mp hx
+        have hxl : sw x ∈ e :: t := hc x (List.mem_cons_of_mem _ hx'.2)
+        rw [List.Nodup.mem_erase_iff hn'.2]
+        refine ⟨?_, ?_⟩
+        · intro h
+          have : x = e := by rw [← hsw x, h, hsw]
+          rw [this] at hx'
+          exact hn'.1 hx'.2
+        · rcases List.mem_cons.mp hxl with h | h
+          · exfalso
+            have : x = sw e := by rw [← hsw x, h]
+            exact hx'.1 this
+          · exact h
+      · intro x hx
+        have hx' := (List.Nodup.mem_erase_iff hn'.2).mp hx
+        exact hf x (List.mem_cons_of_mem _ hx'.2)
+
+/-- the hyperedges of one size whose reverse is present form pairs `e`, reverse of `e` -/
+theorem recCount_exact_even (E : List DEdge) (k : Nat) (hn : E.Nodup) (hd : ∀ e ∈ E, e.1 ≠ e.2) :
+    recCount isExact E k % 2 = 0 := by
+  unfold recCount
+  apply even_of_involution (fun e : DEdge => (e.2, e.1)) (fun x => rfl) _ _ (Nat.le_refl _)
+  · exact (List.filter_sublist).nodup ((List.filter_sublist).nodup hn)
+  · intro x hx
+    have h1 := List.mem_filter.mp hx
+    have h2 := List.mem_filter.mp h1.1
+    have hx' : (x.2, x.1) ∈ E := by simpa [isExact] using h1.2
+    refine List.mem_filter.mpr ⟨List.mem_filter.mpr ⟨hx', ?_⟩, ?_⟩
+    · have := h2.2
+      simp only [beq_iff_eq] at this ⊢
+      rw [esize_swap]; exact this
+    · simp only [isExact, List.contains_iff_mem]
+      exact h2.1
+  · intro x hx
+    have h1 := List.mem_filter.mp hx
+    have h2 := List.mem_filter.mp h1.1
+    intro heq
+    have : x.2 = x.1 := by
+      have := congrArg Prod.fst heq
+      exact this
+    exact hd x h2.1 this.symm
 
 end C12
